@@ -297,7 +297,7 @@ func c18Check(c *sim.Ctx, w *world.World) {
 		if !t.HasRows || len(t.Rows) == 0 {
 			continue
 		}
-		if acc, _ := accepted(d, t.Name); !acc {
+		if !acceptedStrict(c, d, t.Name) {
 			continue
 		}
 		cols := t.ColNames()
